@@ -64,8 +64,9 @@ int main(int argc, char** argv) {
   }
   // ---- re(s, flags): found in a non-null string ----
   struct Pat { const char* s; bool icase; };
-  const Pat pats[] = {{"^$", false}, {"a*", false}, {"", false}, {"^a", false}, {"b$", false}, {"ab", false}, {"B", true}, {"^[ab]+$", false}, {"a.b", false}};
-  const std::vector<const char*> subjects = {nullptr, "", "a", "ab", "b", "ba", "aXb", "B"};
+  const Pat pats[] = {{"^$", false}, {"a*", false}, {"", false}, {"^a", false}, {"b$", false}, {"ab", false}, {"B", true}, {"^[ab]+$", false}, {"a.b", false},
+                      {"(ab)\\1", false}, {"^(a|b)\\1", false}, {"^(.)b\\1$", true}, {"(a)|(b)", false}};   // groups and back-references
+  const std::vector<const char*> subjects = {nullptr, "", "a", "ab", "b", "ba", "aXb", "B", "abab", "abba", "aba", "bb", "aBA"};
   for (auto& p : pats) for (const char* x : subjects) {
     std::regex rx(p.s, p.icase ? std::regex_constants::icase : std::regex_constants::ECMAScript);
     bool expect = x != nullptr && std::regex_search(x, rx);
@@ -81,6 +82,63 @@ int main(int argc, char** argv) {
       R.check("re<std::string>(\"" + std::string(p.s) + "\")", "std::string \"" + sx + "\"", param_matches(p.icase ? re<std::string>(p.s, std::regex_constants::icase) : re<std::string>(p.s), std::ref(sx)), expect, "re");
       const char* px = x; const char** ppx = &px;
       R.check("*" + t, std::string("const char** -> \"") + x + "\"", param_matches(*mk(), std::ref(ppx)), expect, "re");
+    }
+  }
+  // ---- re(s, match flags) and re(s, syntax flags, match flags) ----
+  {
+    namespace rc = std::regex_constants;
+    const char* ps[] = {"^a", "b$", "a", "^$"};
+    for (const char* p : ps) for (const char* x : subjects) {
+      std::string in = x ? std::string("const char* \"") + x + "\"" : std::string("const char* null");
+      std::regex rx(p), rxi(p, rc::icase);
+      R.check(std::string("re(\"") + p + "\",match_not_bol)", in, param_matches(re(p, rc::match_not_bol), std::ref(x)), x != nullptr && std::regex_search(x, rx, rc::match_not_bol), "re");
+      R.check(std::string("re(\"") + p + "\",match_not_eol)", in, param_matches(re(p, rc::match_not_eol), std::ref(x)), x != nullptr && std::regex_search(x, rx, rc::match_not_eol), "re");
+      R.check(std::string("re(\"") + p + "\",icase,match_not_bol)", in, param_matches(re(p, rc::icase, rc::match_not_bol), std::ref(x)), x != nullptr && std::regex_search(x, rxi, rc::match_not_bol), "re");
+      R.check(std::string("!re(\"") + p + "\",icase,match_not_eol)", in, param_matches(!re(p, rc::icase, rc::match_not_eol), std::ref(x)), !(x != nullptr && std::regex_search(x, rxi, rc::match_not_eol)), "re");
+    }
+  }
+  // ---- the documented guard idiom: a null test first, then an operand that must not see a null pointer ----
+  {
+    const std::string expected = "foo";
+    for (const char* x : {(const char*)nullptr, "foo", "bar", ""}) {
+      std::string in = x ? std::string("const char* \"") + x + "\"" : std::string("const char* null");
+      bool is_foo = x && expected == x;
+      R.check("any_of<const char*>(nullptr,expected)", in, param_matches(any_of<const char*>(nullptr, expected), std::ref(x)), x == nullptr || is_foo, "guard");
+      R.check("any_of(eq(nullptr),eq(expected))", in, param_matches(any_of(eq(nullptr), eq(expected)), std::ref(x)), x == nullptr || is_foo, "guard");
+      R.check("all_of(ne(nullptr),eq(expected))", in, param_matches(all_of(ne(nullptr), eq(expected)), std::ref(x)), is_foo, "guard");
+      R.check("all_of(ne(nullptr),ne(expected),re(\"a\"))", in, param_matches(all_of(ne(nullptr), ne(expected), re("a")), std::ref(x)), x && !is_foo && std::string(x).find('a') != std::string::npos, "guard");
+      R.check("none_of(nullptr,expected)", in, param_matches(none_of(eq(nullptr), eq(expected)), std::ref(x)), x != nullptr && !is_foo, "guard");
+      R.check("!any_of(eq(nullptr),eq(expected))", in, param_matches(!any_of(eq(nullptr), eq(expected)), std::ref(x)), x != nullptr && !is_foo, "guard");
+    }
+  }
+  // ---- operands of a wider arithmetic type than the parameter: compared by the usual conversions, never narrowed first ----
+  {
+    const std::vector<double> dv = {0.5, 2.0, 2.5, -1.0, 3.25};
+    for (double v : dv) for (int x : c10::DOM) {
+      std::string in = "int " + std::to_string(x), vs = std::to_string(v);
+      R.check("plain " + vs, in, param_matches(v, std::ref(x)), x == v, "wide");
+      R.check("eq(" + vs + ")", in, param_matches(eq(v), std::ref(x)), x == v, "wide");
+      R.check("ne(" + vs + ")", in, param_matches(ne(v), std::ref(x)), x != v, "wide");
+      R.check("lt(" + vs + ")", in, param_matches(lt(v), std::ref(x)), x < v, "wide");
+      R.check("ge(" + vs + ")", in, param_matches(ge(v), std::ref(x)), x >= v, "wide");
+      R.check("any_of(" + vs + ",7)", in, param_matches(any_of(v, 7), std::ref(x)), x == v || x == 7, "wide");
+      R.check("none_of(" + vs + ")", in, param_matches(none_of(v), std::ref(x)), !(x == v), "wide");
+      R.check("!all_of(" + vs + ")", in, param_matches(!all_of(v), std::ref(x)), !(x == v), "wide");
+      c10::S s{x, 7};
+      R.check("MEMBER_IS(&S::m," + vs + ")", "S{" + std::to_string(x) + ",7}", param_matches(MEMBER_IS(&c10::S::m, v), std::ref(s)), x == v, "wide");
+      int* px = &x;
+      R.check("*any_of(" + vs + ",5)", "int* ->" + std::to_string(x), param_matches(*any_of(v, 5), std::ref(px)), x == v || x == 5, "wide");
+    }
+    const long long big = 4294967297LL;   // 2^32 + 1: equal to 1 only after narrowing to int
+    for (int x : c10::DOM) {
+      std::string in = "int " + std::to_string(x);
+      R.check("plain 4294967297LL", in, param_matches(big, std::ref(x)), (long long)x == big, "wide");
+      R.check("any_of(4294967297LL,2)", in, param_matches(any_of(big, 2), std::ref(x)), (long long)x == big || x == 2, "wide");
+    }
+    for (int v : {300, 301, 44}) for (unsigned char x : {(unsigned char)44, (unsigned char)45, (unsigned char)0}) {
+      std::string in = "unsigned char " + std::to_string((int)x);
+      R.check("plain " + std::to_string(v), in, param_matches(v, std::ref(x)), (int)x == v, "wide");
+      R.check("any_of(" + std::to_string(v) + ",0)", in, param_matches(any_of(v, 0), std::ref(x)), (int)x == v || x == 0, "wide");
     }
   }
   // ---- std::string arguments with an embedded NUL: the whole string is searched ----
